@@ -224,6 +224,32 @@ def random_samples(rng):
     return out
 
 
+def bracketing_samples(rng):
+    """the same scalars bracketed in two ways -- [[a, b], c, d] next to [[a, b, c], d]: list types whose flattened member
+    lists coincide although the types differ (what tells union members apart must see the nesting)"""
+    pool = [1, 1.5, True, None, "x", "1", "2.5", [], {"k": 1}]
+    if rng.random() < 0.7:
+        # the bracket opens at the front and the scalars are of different kinds: [[a, b], c, d] / [[a, b, c], d]
+        seq = rng.sample(pool, rng.choice([3, 4, 5]))
+        (a, b) = rng.sample([(0, j) for j in range(2, len(seq) + 1)], 2)
+    else:
+        seq = [rng.choice(pool) for _ in range(rng.choice([3, 4, 5]))]
+        cuts = [(i, j) for i in range(len(seq)) for j in range(i + 1, len(seq) + 1)]
+        (a, b) = rng.sample(cuts, 2)
+
+    def br(c):
+        i, j = c
+        inner = seq[i:j] if rng.random() < 0.8 else {"d%d" % n: v for n, v in enumerate(seq[i:j])}
+        return [*seq[:i], inner, *seq[j:]]
+    x1, x2 = br(a), br(b)
+    shape = rng.choice(["across", "across", "one-list", "dict"])
+    if shape == "across":
+        return [{"x": x1, "n": 1}, {"x": x2, "n": 2}]
+    if shape == "one-list":
+        return [{"x": [x1, x2], "n": 1}]
+    return [{"x": {"p": x1, "q": x2}, "n": 1}, {"x": {"p": x2}, "n": 2}]
+
+
 RANDOM_ENVS = [{}, {"datetime": True}, {"disabled": ["FloatString"]}, {"dkf": ["data"]}, {"dkr": ["c|d", r"x\d"]},
                {"dkf": ["meta", "data"], "dkr": ["[a-z]+"]}, {"datetime": True, "dkr": ["i.*"]}]
 
@@ -237,8 +263,11 @@ def traces_for(pid, behaviours, chk, n_random):
         inputs[tid] = inp
 
     cases = [([concretise(s) for s in b["samples"]], MC_ENVS[b["env"]], "mc") for b in behaviours]
-    for _ in range(n_random):
-        cases.append((random_samples(chk.rng), chk.rng.choice(RANDOM_ENVS), "rnd"))
+    for k in range(n_random):
+        if k % 4 == 3:
+            cases.append((bracketing_samples(chk.rng), chk.rng.choice([{}, {}, {"dkr": ["[pq]"]}, {"dkf": ["x"]}]), "brk"))
+        else:
+            cases.append((random_samples(chk.rng), chk.rng.choice(RANDOM_ENVS), "rnd"))
     for i, (samples, envspec, origin) in enumerate(cases):
         tid = "%s%d" % (origin, i)
         if pid == "C07":
